@@ -36,6 +36,8 @@ def main():
     env = chk.base_env()
     env["RUSTFLAGS"] = "--cfg dnssector_verif -Cinstrument-coverage"
     env["DNSMON_CDRV"] = "plain"
+    # (instrumented build scripts write a profile when they run: keep it out of the source trees)
+    env["LLVM_PROFILE_FILE"] = os.path.join(tdir, "build-%p.profraw")
     r = subprocess.run(["cargo", "+nightly", "build", "--offline", "--profile", "checked", "--target-dir", tdir],
                        cwd=chk.harness_dir(), env=env, stdout=subprocess.PIPE, stderr=subprocess.STDOUT, text=True)
     if r.returncode != 0:
